@@ -9,7 +9,7 @@ use crate::oracle::Fmt;
 use crate::runner::{catch, finish, last_panic_location, require_counter, run_recipes, run_sweep, Ctx, Failure, Report, Stats, Tier};
 use serde_json::json;
 
-pub const BUILD: &str = if cfg!(debug_assertions) { "dbgchk (debug assertions + overflow checks + UB-precondition checks)" } else { "release" };
+pub const BUILD: &str = if cfg!(debug_assertions) { "dbgchk (debug assertions + overflow checks + UB-precondition checks, target-cpu=native)" } else { "release" };
 
 fn check_case(c: &Case, stats: &mut Stats) -> Result<(), Failure> {
     for fmt in [Fmt::F64, Fmt::F32] {
